@@ -94,6 +94,8 @@ type TermStore struct {
 	tt    *Term
 	ff    *Term
 	linc  *linCtx
+	sub   *substCtx
+	sup   map[int]*supInfo
 }
 
 // Constants are global (shared by all stores, including the init-time heap) so that frozen
@@ -687,19 +689,8 @@ func (s *TermStore) Eq(a, b *Term) *Term {
 			}
 			return s.Eq(x, s.Const(x.w, b.k))
 		case OpIte:
-			if a.args[1].IsConst() && a.args[2].IsConst() {
-				t1 := a.args[1].k == b.k
-				t2 := a.args[2].k == b.k
-				switch {
-				case t1 && t2:
-					return s.tt
-				case t1:
-					return a.args[0]
-				case t2:
-					return s.BNot(a.args[0])
-				default:
-					return s.ff
-				}
+			if iteOfConsts(a, 4) {
+				return s.Ite(a.args[0], s.Eq(a.args[1], b), s.Eq(a.args[2], b))
 			}
 		case OpAdd:
 			if a.args[1].IsConst() {
@@ -724,12 +715,8 @@ func (s *TermStore) Eq(a, b *Term) *Term {
 			if len(hits) == len(a.tab.vals) {
 				return s.tt
 			}
-			if len(hits) <= 4 {
-				res := s.ff
-				for _, h := range hits {
-					res = s.BOr(res, s.Eq(idx, s.Const(idx.w, h)))
-				}
-				return res
+			if len(hits) == 1 {
+				return s.Eq(idx, s.Const(idx.w, hits[0]))
 			}
 			if a.w > 1 {
 				return s.selectPred(a, func(v uint64) bool { return v == b.k })
@@ -742,7 +729,11 @@ func (s *TermStore) Eq(a, b *Term) *Term {
 	case 0:
 		return s.ff
 	}
-	return s.mk(&Term{op: OpEq, w: 0, args: order(a, b)})
+	res := s.mk(&Term{op: OpEq, w: 0, args: order(a, b)})
+	if a.w <= 8 && a.w > 1 && (a.op == OpSelect || b.op == OpSelect) {
+		return s.tabulate(res)
+	}
+	return res
 }
 
 func order(a, b *Term) []*Term {
@@ -813,12 +804,28 @@ func (s *TermStore) selectPred(sel *Term, pred func(uint64) bool) *Term {
 
 func (s *TermStore) Ule(a, b *Term) *Term { return s.BNot(s.Ult(b, a)) }
 
+func iteOfConsts(t *Term, depth int) bool {
+	if t.IsConst() {
+		return true
+	}
+	if t.op != OpIte || depth == 0 {
+		return false
+	}
+	return iteOfConsts(t.args[1], depth-1) && iteOfConsts(t.args[2], depth-1)
+}
+
 func (s *TermStore) Slt(a, b *Term) *Term {
 	if a.IsConst() && b.IsConst() {
 		return s.Bool(sext64(a.k, a.w) < sext64(b.k, b.w))
 	}
 	if a == b {
 		return s.ff
+	}
+	if a.op == OpIte && b.IsConst() && iteOfConsts(a, 4) {
+		return s.Ite(a.args[0], s.Slt(a.args[1], b), s.Slt(a.args[2], b))
+	}
+	if b.op == OpIte && a.IsConst() && iteOfConsts(b, 4) {
+		return s.Ite(b.args[0], s.Slt(a, b.args[1]), s.Slt(a, b.args[2]))
 	}
 	half := uint64(1) << uint(a.w-1)
 	if a.umax < half && b.umax < half {
@@ -999,4 +1006,364 @@ func (t *Term) String() string {
 		sb.WriteString(")")
 	}
 	return sb.String()
+}
+
+// rebuild re-creates t with new arguments through the simplifying constructors.
+func (s *TermStore) rebuild(t *Term, a []*Term) *Term {
+	switch t.op {
+	case OpAdd, OpSub, OpMul, OpUDiv, OpURem, OpSDiv, OpSRem, OpAnd, OpOr, OpXor, OpShl, OpLShr, OpAShr:
+		return s.bin(t.op, a[0], a[1])
+	case OpNot:
+		return s.Not(a[0])
+	case OpNeg:
+		return s.Neg(a[0])
+	case OpConcat:
+		return s.Concat(a[0], a[1])
+	case OpExtract:
+		return s.Extract(a[0], int(t.k>>8), int(t.k&0xff))
+	case OpZExt:
+		return s.ZExt(a[0], t.w)
+	case OpSExt:
+		return s.SExt(a[0], t.w)
+	case OpIte:
+		return s.Ite(a[0], a[1], a[2])
+	case OpEq:
+		return s.Eq(a[0], a[1])
+	case OpUlt:
+		return s.Ult(a[0], a[1])
+	case OpUle:
+		return s.Ule(a[0], a[1])
+	case OpSlt:
+		return s.Slt(a[0], a[1])
+	case OpSle:
+		return s.Sle(a[0], a[1])
+	case OpBAnd:
+		return s.BAnd(a[0], a[1])
+	case OpBOr:
+		return s.BOr(a[0], a[1])
+	case OpBNot:
+		return s.BNot(a[0])
+	case OpSelect:
+		return s.Select(t.tab, a[0])
+	case OpUF:
+		return s.UF(t.name, t.w, a...)
+	}
+	return t
+}
+
+// substCtx: known equalities term == constant gathered from the path condition.
+type substCtx struct {
+	m    map[int]*Term
+	memo map[int]*Term
+}
+
+func (s *TermStore) noteConstEq(c *Term) {
+	if c.op != OpEq {
+		// a bare boolean atom or its negation
+		if s.sub == nil {
+			s.sub = &substCtx{m: map[int]*Term{}, memo: map[int]*Term{}}
+		}
+		if c.op == OpBNot {
+			if c.args[0].op != OpConst {
+				s.sub.m[c.args[0].id] = s.ff
+				s.sub.memo = map[int]*Term{}
+			}
+		} else if c.op == OpVar || c.op == OpUlt || c.op == OpSlt {
+			s.sub.m[c.id] = s.tt
+			s.sub.memo = map[int]*Term{}
+		}
+		return
+	}
+	a, b := c.args[0], c.args[1]
+	if a.IsConst() {
+		a, b = b, a
+	}
+	if !b.IsConst() || a.IsConst() {
+		return
+	}
+	if s.sub == nil {
+		s.sub = &substCtx{m: map[int]*Term{}, memo: map[int]*Term{}}
+	}
+	s.sub.m[a.id] = b
+	s.sub.memo = map[int]*Term{}
+}
+
+// norm rewrites t under the known equalities (bottom-up, memoised per set of facts).
+func (s *TermStore) norm(t *Term) *Term {
+	if s.sub == nil || len(s.sub.m) == 0 || t.IsConst() {
+		return t
+	}
+	if v, ok := s.sub.memo[t.id]; ok {
+		return v
+	}
+	var res *Term
+	if k, ok := s.sub.m[t.id]; ok {
+		res = k
+	} else if len(t.args) == 0 {
+		res = t
+	} else {
+		na := make([]*Term, len(t.args))
+		changed := false
+		for i, x := range t.args {
+			na[i] = s.norm(x)
+			if na[i] != x {
+				changed = true
+			}
+		}
+		if changed || t.op == OpSelect {
+			res = s.rebuild(t, na)
+			if res != t && !res.IsConst() {
+				if k, ok := s.sub.m[res.id]; ok {
+					res = k
+				}
+			}
+		} else {
+			res = t
+		}
+	}
+	s.sub.memo[t.id] = res
+	return res
+}
+
+// supportVars collects the variables a term depends on.
+func supportVars(t *Term, seen map[int]bool, out *[]*Term) {
+	if t.IsConst() || seen[t.id] {
+		return
+	}
+	seen[t.id] = true
+	if t.op == OpVar {
+		*out = append(*out, t)
+		return
+	}
+	for _, a := range t.args {
+		supportVars(a, seen, out)
+	}
+}
+
+// evalTerm evaluates t under an assignment of its variables (by ref name). UFs are not evaluable.
+func evalTerm(t *Term, m map[string]uint64, memo map[int]uint64) (uint64, bool) {
+	if t.IsConst() {
+		return t.k, true
+	}
+	if v, ok := memo[t.id]; ok {
+		return v, true
+	}
+	var a [3]uint64
+	if t.op != OpVar && t.op != OpUF {
+		for i, x := range t.args {
+			v, ok := evalTerm(x, m, memo)
+			if !ok {
+				return 0, false
+			}
+			if i < 3 {
+				a[i] = v
+			}
+		}
+	}
+	w := t.w
+	var aw int
+	if len(t.args) > 0 {
+		aw = t.args[0].w
+	}
+	mk := mask(w)
+	b2u := func(b bool) uint64 {
+		if b {
+			return 1
+		}
+		return 0
+	}
+	var r uint64
+	switch t.op {
+	case OpVar:
+		v, ok := m[t.ref()]
+		if !ok {
+			return 0, false
+		}
+		r = v
+	case OpUF:
+		return 0, false
+	case OpAdd:
+		r = (a[0] + a[1]) & mk
+	case OpSub:
+		r = (a[0] - a[1]) & mk
+	case OpMul:
+		r = (a[0] * a[1]) & mk
+	case OpUDiv:
+		if a[1] == 0 {
+			r = mk
+		} else {
+			r = a[0] / a[1]
+		}
+	case OpURem:
+		if a[1] == 0 {
+			r = a[0]
+		} else {
+			r = a[0] % a[1]
+		}
+	case OpSDiv:
+		x, y := sext64(a[0], w), sext64(a[1], w)
+		switch {
+		case y == 0 && x >= 0:
+			r = mk
+		case y == 0:
+			r = 1
+		case y == -1:
+			r = uint64(-x) & mk
+		default:
+			r = uint64(x/y) & mk
+		}
+	case OpSRem:
+		x, y := sext64(a[0], w), sext64(a[1], w)
+		switch {
+		case y == 0:
+			r = a[0]
+		case y == -1:
+			r = 0
+		default:
+			r = uint64(x%y) & mk
+		}
+	case OpAnd:
+		r = a[0] & a[1]
+	case OpOr:
+		r = a[0] | a[1]
+	case OpXor:
+		r = a[0] ^ a[1]
+	case OpNot:
+		r = ^a[0] & mk
+	case OpNeg:
+		r = (-a[0]) & mk
+	case OpShl:
+		if a[1] >= uint64(w) {
+			r = 0
+		} else {
+			r = (a[0] << a[1]) & mk
+		}
+	case OpLShr:
+		if a[1] >= uint64(w) {
+			r = 0
+		} else {
+			r = a[0] >> a[1]
+		}
+	case OpAShr:
+		sh := a[1]
+		if sh >= uint64(w) {
+			sh = uint64(w - 1)
+		}
+		r = uint64(sext64(a[0], w)>>sh) & mk
+	case OpConcat:
+		r = (a[0]<<uint(t.args[1].w) | a[1]) & mk
+	case OpExtract:
+		r = (a[0] >> (t.k & 0xff)) & mk
+	case OpZExt:
+		r = a[0]
+	case OpSExt:
+		r = uint64(sext64(a[0], aw)) & mk
+	case OpIte:
+		if a[0] != 0 {
+			r = a[1]
+		} else {
+			r = a[2]
+		}
+	case OpEq:
+		r = b2u(a[0] == a[1])
+	case OpUlt:
+		r = b2u(a[0] < a[1])
+	case OpUle:
+		r = b2u(a[0] <= a[1])
+	case OpSlt:
+		r = b2u(sext64(a[0], aw) < sext64(a[1], aw))
+	case OpSle:
+		r = b2u(sext64(a[0], aw) <= sext64(a[1], aw))
+	case OpBAnd:
+		r = b2u(a[0] != 0 && a[1] != 0)
+	case OpBOr:
+		r = b2u(a[0] != 0 || a[1] != 0)
+	case OpBNot:
+		r = b2u(a[0] == 0)
+	case OpSelect:
+		if a[0] < uint64(len(t.tab.vals)) {
+			r = t.tab.vals[a[0]]
+		} else {
+			r = t.tab.vals[len(t.tab.vals)-1]
+		}
+	default:
+		return 0, false
+	}
+	memo[t.id] = r
+	return r, true
+}
+
+// support1 reports whether t depends on exactly one variable of width <= 8 (returned) — such terms
+// can be tabulated exhaustively.
+func (s *TermStore) support1(t *Term) (*Term, bool) {
+	if t.IsConst() {
+		return nil, true
+	}
+	if s.sup == nil {
+		s.sup = map[int]*supInfo{}
+	}
+	if si, ok := s.sup[t.id]; ok {
+		return si.v, si.ok
+	}
+	si := &supInfo{ok: true}
+	switch t.op {
+	case OpVar:
+		if t.w > 8 || t.w == 0 {
+			si.ok = false
+		} else {
+			si.v = t
+		}
+	case OpUF:
+		si.ok = false
+	default:
+		for _, a := range t.args {
+			v, ok := s.support1(a)
+			if !ok {
+				si.ok = false
+				break
+			}
+			if v != nil {
+				if si.v != nil && si.v != v {
+					si.ok = false
+					break
+				}
+				si.v = v
+			}
+		}
+	}
+	s.sup[t.id] = si
+	return si.v, si.ok
+}
+
+type supInfo struct {
+	v  *Term
+	ok bool
+}
+
+// tabulate turns a boolean term over one small variable into a predicate table lookup.
+func (s *TermStore) tabulate(t *Term) *Term {
+	if t.w != 0 || t.IsConst() || predSelect(t) != nil {
+		return t
+	}
+	v, ok := s.support1(t)
+	if !ok || v == nil {
+		return t
+	}
+	// only worth it for non-trivial terms
+	if t.op == OpEq && (t.args[0] == v || t.args[1] == v) && (t.args[0].IsConst() || t.args[1].IsConst()) {
+		return t
+	}
+	n := 1 << uint(v.w)
+	vals := make([]uint64, n)
+	m := map[string]uint64{}
+	for i := 0; i < n; i++ {
+		m[v.ref()] = uint64(i)
+		r, ok := evalTerm(t, m, map[int]uint64{})
+		if !ok {
+			return t
+		}
+		vals[i] = r
+	}
+	sel := s.Select(internTable(vals, 1), v)
+	return s.Eq(sel, s.Const(1, 1))
 }
